@@ -70,10 +70,14 @@ class Parent(nn.Module):
   own_first: bool = False    # create the own param before the children
   reuse: bool = False        # call the first child twice
   var_name: object = None    # a 'stats' variable of the parent
+  var_first: bool = False    # declare that variable before the children
 
   @nn.compact
   def __call__(self, x):
     y = x
+    vfirst = None
+    if self.var_name is not None and self.var_first:
+      vfirst = self.variable('stats', self.var_name, lambda: 7)
     if self.own is not None and self.own_first:
       y = y + self.param(self.own, lambda rng: 5)
     kids = []
@@ -86,7 +90,8 @@ class Parent(nn.Module):
     if self.own is not None and not self.own_first:
       y = y + self.param(self.own, lambda rng: 5)
     if self.var_name is not None:
-      v = self.variable('stats', self.var_name, lambda: 7)
+      v = vfirst if self.var_first else self.variable('stats', self.var_name,
+                                                      lambda: 7)
       y = y + v.value
     return y
 
@@ -165,7 +170,8 @@ def _out(resolved, own, own_first, reuse, var_name, x, tree):
 
 
 @with_rng_stub
-def tree_mirrors_modules(nk, n0, n1, own, own_first, reuse, vn, x, w_new):
+def tree_mirrors_modules(nk, n0, n1, own, own_first, reuse, vn, x, w_new,
+                         var_first=False):
   """init's tree sits at <submodule name>/<variable>, auto names are deterministic,
   apply(init vars) reproduces init's output without creating / dropping anything,
   a submodule applied on its own subtree computes what it computes in the parent,
@@ -179,7 +185,7 @@ def tree_mirrors_modules(nk, n0, n1, own, own_first, reuse, vn, x, w_new):
   own_nm = pick(OWN_POOL, own)
   var_nm = pick([None, 'Leaf_0', 'v', 'w'], vn)
   mod = Parent(names=tuple(names), own=own_nm, own_first=bool(own_first),
-               reuse=bool(reuse), var_name=var_nm)
+               reuse=bool(reuse), var_name=var_nm, var_first=bool(var_first))
   exp, err = _expected(names, own_nm, bool(own_first), bool(reuse), var_nm)
   # automatic names skip explicit names already in use? no: an explicit name equal
   # to an auto name that comes later clashes -- decided by the reference above
@@ -251,6 +257,45 @@ def damaged_tree(kind, which, x):
 
 
 @with_rng_stub
+class Branch(nn.Module):
+  inner: nn.Module
+
+  @nn.compact
+  def __call__(self, x):
+    return self.inner(x) + 1
+
+
+class TwoBranches(nn.Module):
+  left: nn.Module
+  right: nn.Module
+
+  def __call__(self, x):
+    return self.right(self.left(x))
+
+
+@with_rng_stub
+def shared_between_parents(x, w):
+  """one module instance used by two different children: a single set of
+  variables (under its first owner), apply == init, bind/unbind keep the sharing"""
+  d = Leaf()
+  top = TwoBranches(Branch(d), Branch(d))
+  y, vs = top.init_with_output(_KEY, x)
+  vs = plain(vs)
+  if vs != {'params': {'left': {'inner': {'w': 3}}},
+            'stats': {'left': {'inner': {'c': 1}}}}:
+    return False
+  exp = ((x * 3 + 1) + 1) * 3 + 1 + 1
+  if y != exp or top.apply(vs, x) != exp:
+    return False
+  vs['params']['left']['inner']['w'] = w
+  expw = ((x * w + 1) + 1) * w + 1 + 1
+  bound = top.bind(vs)
+  if bound(x) != expw:
+    return False
+  unbound, uv = bound.unbind()
+  return plain(uv) == vs and unbound.apply(uv, x) == expw
+
+
 def setup_style(x, w):
   """setup-style modules: attribute names (and list indices) are the tree keys;
   bind()/unbind round trip"""
@@ -306,7 +351,8 @@ def obligations(tier):
       Ob('tree_mirrors_modules', tree_mirrors_modules,
          dict(nk=I(0, 2), n0=npool, n1=npool,
               own=I(0, 3 if quick else len(OWN_POOL) - 1), own_first=B(), reuse=B(),
-              vn=I(0, 1 if quick else 3), x=I(-3, 3), w_new=I(-3, 3)),
+              vn=I(0, 1 if quick else 3), x=I(-3, 3), w_new=I(-3, 3),
+              var_first=B()),
          split=('nk', 'n0', 'n1', 'own'), timeout=900, funcs=F,
          per_path_timeout=60.0,
          bounds='<=2 children, names from %r, own param from %r, stats variable '
@@ -317,4 +363,6 @@ def obligations(tier):
          timeout=600, funcs=F, per_path_timeout=60.0),
       Ob('setup_style_bind_unbind', setup_style, dict(x=I(-3, 3), w=I(-3, 3)),
          timeout=600, funcs=F, per_path_timeout=60.0),
+      Ob('shared_between_parents', shared_between_parents,
+         dict(x=I(-3, 3), w=I(-3, 3)), timeout=600, funcs=F, per_path_timeout=60.0),
   ]
